@@ -169,8 +169,10 @@ def suite_matrix(tier, seed, only):
 
 
 def _deploy_failed(names, spec, e):
-    return [T.result(n, spec, {"deployment": "starts and listens as documented"}, {"deployment_error": str(e)[:2500]}, False,
-                     "deployment did not come up: %s" % (str(e)[:300],)) for n in names]
+    why = getattr(e, "ready_detail", None) or str(e)
+    observed = {"deployment_error": why, "log_tails": getattr(e, "log_tails", None) or str(e)[-1500:]}
+    return [T.result(n, spec, {"deployment": "starts and listens as documented"}, observed, False,
+                     "deployment did not come up: %s" % (why[:400],)) for n in names]
 
 
 def matrix_job_quick(spec, cname, seed, only):
